@@ -577,7 +577,7 @@ func (s *vSchema) probeOrder(m *vMsg) error {
 	}
 	for r := 0; r < maxAlt; r++ {
 		v := s.fillAll(m, r, 0)
-		b, err := v.Addr().Interface().(vPB).Marshal()
+		b, err := vMarshal(v.Addr().Interface().(vPB))
 		if err != nil {
 			return err
 		}
